@@ -423,6 +423,26 @@ def install(E):
         r = elem_refs(E, v, base)
         return some(r[0] if ctx.callee.endswith('first') else r[-1])
 
+    @reg_re(E, r'^(std::ops::|core::ops::)?RangeInclusive::new$')
+    def range_incl_new(E, a, ctx):
+        return Agg('RangeInclusive', [a[0], a[1]])
+
+    @reg_re(E, r'^(std::ops::|core::ops::)?(RangeInclusive|Range|RangeFrom|RangeTo|RangeToInclusive)::contains$')
+    def range_contains(E, a, ctx):
+        r = _ld(E, a[0])
+        x = _ld(E, a[1])
+        kind = ctx.callee.split('::contains')[0].split('::')[-1].split('<')[0]
+        f = list(r.fields)
+        if kind == 'RangeInclusive':
+            return z3.And(z3.UGE(x, f[0]), z3.ULE(x, f[1]))
+        if kind == 'Range':
+            return z3.And(z3.UGE(x, f[0]), z3.ULT(x, f[1]))
+        if kind == 'RangeFrom':
+            return z3.UGE(x, f[0])
+        if kind == 'RangeTo':
+            return z3.ULT(x, f[0])
+        return z3.ULE(x, f[0])
+
     @reg(E, 'Vec::new', 'std::vec::Vec::new', 'Vec::with_capacity')
     def vec_new(E, a, ctx):
         return Agg('Vec', [])
